@@ -98,20 +98,10 @@ func DecodeFrozen(b []byte) ([]Chunk, error) {
 		switch c.Kind {
 		case Bitmap:
 			pc := 0
-			var cur *model.Iv
 			for w := 0; w < 1024; w++ {
 				x := binary.LittleEndian.Uint64(body[bp+8*w:])
 				pc += bits.OnesCount64(x)
-				for x != 0 {
-					v := uint64(w)*64 + uint64(bits.TrailingZeros64(x))
-					if cur != nil && cur.Hi+1 == v {
-						cur.Hi = v
-					} else {
-						c.Ivs = append(c.Ivs, model.Iv{Lo: v, Hi: v})
-						cur = &c.Ivs[len(c.Ivs)-1]
-					}
-					x &= x - 1
-				}
+				c.Ivs = appendWordRuns(c.Ivs, x, uint64(w)*64)
 			}
 			bp += 8192
 			if pc != cnt+1 {
